@@ -201,8 +201,9 @@ def check(run, ctx):
     N3 = run.rule("N3", "the three _process_*_functions skip iff max_depth <= config.max_nesting_depth, report the compared max_depth, and NestingConfig reads max_nesting_depth in both branches", floor=8,
                   decides="the verdict flips exactly when the depth exceeds the limit, and the message states that depth")
     rq = f"{PKG}.linter.NestingDepthRule"
-    for nm in ("_process_python_functions", "_process_typescript_functions", "_process_rust_functions"):
-        f = repo.func(f"{rq}.{nm}")
+    for nm, builder_ in (("_process_python_functions", "create_nesting_violation"), ("_process_typescript_functions", "create_typescript_nesting_violation"), ("_process_rust_functions", "create_rust_nesting_violation")):
+        f = repo.func_by_role(f"{rq}.{nm}", f"the rule method that compares each function's depth with the limit and calls {builder_}",
+                              lambda g, b_=builder_: any(is_call_named(c, b_) for c in ast.walk(g.node)) and any(is_call_named(c, "calculate_max_depth") for c in ast.walk(g.node)))
         cmp_ = [n for n in ast.walk(f.node) if isinstance(n, ast.If) and isinstance(n.test, ast.Compare) and "max_nesting_depth" in ast.unparse(n.test)]
         if len(cmp_) != 1:
             run.finding(N3, nm, "threshold-test", f"{nm}: expected exactly one comparison with config.max_nesting_depth", f.loc)
